@@ -151,18 +151,44 @@ def wfNodes (ns : List (Node Nat)) : Bool :=
 
 /-! ### (a) sequential lines -/
 
-def runSeq (N : Nat) : Array (Node Nat) → List (Call Nat) → List (Resp Nat)
-  | _, [] => []
-  | arr, c :: cs =>
-    let r := seqStep (N+1) (graphOf arr) c
-    r.2 :: runSeq N (table N r.1) cs
+/-- parameter versions (second component of `.param v n`) in node order -/
+def paramVersions (arr : Array (Node Nat)) : List Nat :=
+  arr.toList.filterMap fun n => match n with
+    | .param _ n => some n
+    | .struct _ => none
+
+def callNode : Call Nat → Nat
+  | .update p _ => p
+  | .paramData p => p
+  | .artifact i => i
+
+def isUpdate : Call Nat → Bool
+  | .update _ _ => true
+  | _ => false
+
+/-- One response block per call: `<resp> pv <version of every parameter, node order> mv <model version>`.
+    A call naming a node id `≥ N` (harness token 999999: a node id / producer name the instance does
+    not have) is rejected — Go panics in `i.Node` (inside the lock) resp. in the producer lookup of
+    `Artifact` (before the lock) — answer `err`, state unchanged.  `mv` = `Instance.ModelVersion()` =
+    number of `UpdateParameter` calls so far that were accepted (`incModelVersion` runs after
+    `ApplyMessage`; a call that panics in `i.Parameter` never reaches it). -/
+def runSeq (N : Nat) : Array (Node Nat) → Nat → List (Call Nat) → List String
+  | _, _, [] => []
+  | arr, mv, c :: cs =>
+    if callNode c ≥ N then
+      s!"err pv {" ".intercalate ((paramVersions arr).map toString)} mv {mv}" :: runSeq N arr mv cs
+    else
+      let r := seqStep (N+1) (graphOf arr) c
+      let arr' := table N r.1
+      let mv' := if isUpdate c && decide (r.2 = .ok) then mv + 1 else mv
+      s!"{respStr r.2} pv {" ".intercalate ((paramVersions arr').map toString)} mv {mv'}" :: runSeq N arr' mv' cs
 
 def handleSeq : P String := do
   let ns ← pList pNode
   let calls ← pList pCall
   pEnd
   if !wfNodes ns then failure
-  pure (" ".intercalate ((runSeq ns.length ns.toArray calls).map respStr))
+  pure (" ".intercalate (runSeq ns.length ns.toArray 0 calls))
 
 /-! ### (b) linearization search (untrusted) + verified witness check -/
 
